@@ -7,7 +7,7 @@ VERIF = os.path.dirname(os.path.dirname(os.path.abspath(__file__)))
 CHECKS = {
     'C01': dict(
         technique='property-based testing: generated signatures x argument routes, differential oracle (direct call on reference-built arguments)',
-        text='Hypothesis-generated Configs over 1176 signature shapes x 7 callable kinds with generated argument routes and nestings; fdl.build is compared with a direct call formed by an independent reference evaluator. Thorough additionally enumerates every shape x {function, class} x every subset of parameters. Held-on-everything-generated, not a proof.',
+        text='Hypothesis-generated Configs over 1176 signature shapes x 7 callable kinds with generated argument routes and nestings, plus sequences of Buildables over unhashable callable instances; fdl.build is compared with a direct call formed by an independent reference evaluator. Thorough additionally enumerates every shape x {function, class} x every subset of parameters. Held-on-everything-generated, not a proof.',
         note='Trusted: CPython inspect.signature, harness/refmodel.py (form_call, ref_build), harness/canon.py; Hypothesis 6.168 generation.'),
     'C02': dict(
         technique='property-based testing: generated DAG recipes with explicit aliasing, invocation-log and identity-relation oracle against a reference evaluator',
@@ -27,23 +27,23 @@ CHECKS = {
         note='Trusted: harness/canon.walk path enumeration and path rendering in props/c05.py, refmodel.ref_build for follow-up builds. Context path required only where a proxy class can be built (see ASSUMPTIONS in evidence).'),
     'C06': dict(
         technique='property-based metamorphic testing: generated configuration triples related by equality-preserving / single equality-breaking rewrites; algebraic laws of == plus congruence with build checked against canonical forms',
-        text='Hypothesis generates a base DAG x and y=r1(x), z=r2(y) with r drawn from 7 equality-preserving rewrites (deepcopy, pickle, rebuild, default made explicit incl. positional-only, dict reordered, edit history, alias to a tuple of literals redirected) and 5 equality-breaking rewrites (leaf, callable, Buildable type, alias redirected, copies merged); totality, reflexivity, symmetry, transitivity, !=, expected truth value and x==y => identical built graphs (sharing included) are checked. Two genuine defects of the first-visit-path DAG comparison are listed as known findings with a narrow input feature.',
+        text='Hypothesis generates a base DAG x and y=r1(x), z=r2(y) with r drawn from 7 equality-preserving rewrites (deepcopy, pickle, rebuild, default made explicit incl. positional-only, dict reordered, edit history, alias to a tuple of literals redirected) and 6 equality-breaking rewrites (leaf, callable, Buildable type, alias redirected, a later reference re-targeted among visited objects, copies merged); totality, reflexivity, symmetry, transitivity, !=, expected truth value and x==y => identical built graphs (sharing included) are checked. Two genuine defects of the first-visit-path DAG comparison are listed as known findings with a narrow input feature.',
         note='Trusted: rewrite functions and first_visit_paths classifier in harness/props/c06.py, harness/canon.py. NaN leaves excluded.'),
     'C07': dict(
         technique='property-based testing with edit histories: generated configuration x copy operation x edits on the copy; round-trip (canonical form) and identity-disjointness oracle, frame condition on the original after every edit',
-        text='For each generated DAG (all Buildable types, positional/*args/keyword arguments, tags, shared containers, explicit mutable defaults) and each of 8 copy operations, the copy must be canonically equal (tags, sharing), deep copies must share no Buildable / argument dict / container / tag set / history list with the original, shallow copies must have fresh top-level state with identical argument values, and 1-8 generated edits of the copy (arguments, tags, TaggedValue assignment, in-place container mutation for deep copies) must leave the original\'s canonical form with history and its build unchanged.',
+        text='For each generated DAG (all Buildable types, positional/*args/keyword arguments, tags also on value-less positional-only parameters, shared containers, sets and plain attribute-holder objects as mutable leaves, explicit mutable defaults) and each of 8 copy operations, the copy must be canonically equal (tags, sharing), deep copies must share no Buildable / argument dict / container / tag set / history list with the original, shallow copies must have fresh top-level state with identical argument values, and 1-8 generated edits of the copy (arguments, tags, TaggedValue assignment, in-place container mutation for deep copies) must leave the original\'s canonical form with history and its build unchanged.',
         note='Trusted: harness/canon.py, mutable_objects() enumeration in props/c07.py.'),
     'C08': dict(
         technique='property-based testing: generated nested structures with aliasing, independent reference walk as oracle for path soundness/completeness, canonical-form round trip for identity traversals, small history scenarios for registries',
-        text='Generated structures (lists, tuples, dicts, defaultdicts, named tuples, Buildables with positional/*args/keyword arguments, tuples of literals, Box nodes with flatten temporaries, aliasing) are walked by an independent reference; iterate (memoized/un-memoized/memoize_internables=False), follow_path, collect_paths_by_id (daglish + legacy), State.get_all_paths and five identity rebuilds are compared with it; cyclic inputs must raise ValueError; a node type registered after a fallback registry already looked it up must be traversed afterwards.',
+        text='Generated structures (lists, tuples, dicts, defaultdicts, named tuples, Buildables with positional/*args/keyword arguments, tuples of literals, Box nodes with flatten temporaries, aliasing) are walked by an independent reference; iterate (memoized/un-memoized/memoize_internables=False), follow_path, collect_paths_by_id (daglish + legacy), State.get_all_paths (for containers and for leaves, cached and, after the structure gained a reference, with allow_caching=False) and five identity rebuilds are compared with it; cyclic inputs must raise ValueError; a node type registered after a fallback registry already looked it up must be traversed afterwards.',
         note='Trusted: reference walk in harness/canon.py + props/c08.py; legacy traversals judged only on the container types they document.'),
     'C09': dict(
         technique='property-based round-trip testing plus policy fault injection: generated values -> dump_json -> load_json compared by canonical form; mutated documents loaded under recording policies with a spy on symbol resolution',
-        text='Hypothesis generates DAGs with every serializable leaf/container type (huge ints, special floats, surrogates, escape-like bytes, enums, slices, NO_VALUE, sets, named tuples, defaultdicts, arbitrary hashable dict keys, registered constant, dict-based object, tags, unset parameters, sharing); dump must raise or produce JSON whose load has the same canonical form and re-dumps identically, without invoking any callable. Policy cases mutate pyrefs of real documents to canary/forbidden symbols and load them under allow-list / deny-all / deny-by-value policies while a spy checks that every resolved symbol was approved by both policy questions during that resolution.',
+        text='Hypothesis generates DAGs with every serializable leaf/container type (huge ints, special floats, surrogates, escape-like bytes, enums, slices, NO_VALUE, sets, named tuples, defaultdicts, arbitrary hashable dict keys, registered constant, dict-based object, tags, unset parameters, sharing, callables whose names collide in snake case); dump must raise or produce JSON whose load has the same canonical form and re-dumps identically, without invoking any callable. Policy cases mutate pyrefs of real documents to canary/forbidden symbols and load them under allow-list / deny-all / deny-by-value policies while a spy checks that every resolved symbol was approved by both policy questions during that resolution.',
         note='Trusted: harness/canon.py, the import_symbol spy and RecordingPolicy in props/c09.py, json.loads as the reference JSON parser.'),
     'C10': dict(
         technique='property-based round-trip testing over generated configuration pairs (independent, identity-sharing, k random edits); canonical-form oracle independent of Fiddle ==',
-        text='Pairs (old, new) are generated as two independent DAG recipes, as a shallow top-level copy sharing every sub-object with old and then edited, or as up to 6 random edits (value change, callable swap with and without dropped arguments, argument/tag add/remove, alias created/broken, subtree moved, list/dict growth and shrink) of a deep copy; build_diff must succeed and apply_diff on a copy of old must yield the canonical form of new in place, leaving diff and new untouched; the self-diff must be empty. Positional arguments and changed elements inside aligned tuples are listed known findings, excluded from most of the campaign and re-confirmed by replay.',
+        text='Pairs (old, new) are generated as two independent DAG recipes, as a shallow top-level copy sharing every sub-object with old and then edited, or as up to 6 random edits (value change, callable swap with and without dropped arguments and between **kwargs callables assembled without update_callable, argument/tag add/remove, alias created/broken, subtree moved, list/dict growth and shrink) of a deep copy; build_diff must succeed and apply_diff on a copy of old must yield the canonical form of new in place, leaving diff and new untouched; the self-diff must be empty. Positional arguments and changed elements inside aligned tuples are listed known findings, excluded from most of the campaign and re-confirmed by replay.',
         note='Trusted: harness/canon.py, the edit interpreter in props/c10.py. Diff shape is never judged.'),
     'C14': dict(
         technique='property-based testing: generated tagged DAGs, frame-condition oracle from an independent graph walk, dict-of-sets model for tag operation histories, round trips through five subsystems',
@@ -51,15 +51,15 @@ CHECKS = {
         note='Trusted: harness/canon.py, TagModel in props/c14.py. Tags on *args slots that do not exist are skipped as unspecified.'),
     'C15': dict(
         technique='property-based testing: generated DAGs over a class hierarchy x selection parameters x operation; expected node set from an independent graph walk, recursive frame condition for replace',
-        text='For generated DAGs (functions and Base<-Mid<-LeafCls/Other classes under Config and Partial, matches shared, nested in other matches and in containers), every F x match_subclasses x buildable_type, the selection must iterate exactly the reference identity set once each, set/get must touch exactly those nodes, replace (both deepcopy modes, also with v equal to a matching node) must put v at every reference to a match while every other Buildable keeps identity and arguments recursively from the root, replace on a root match must raise, and tag selections must yield value / default / NO_VALUE.',
+        text='For generated DAGs (functions and Base<-Mid<-LeafCls/Other classes under Config and Partial, matches shared, nested in other matches and in containers), every F x match_subclasses x buildable_type, the selection must iterate exactly the reference identity set once each, set/get must touch exactly those nodes, replace (both deepcopy modes, also with v equal to a matching node) must put v at every reference to a match while every other Buildable keeps identity and arguments recursively from the root, replace on a root match must raise, a selection object reused after the configuration gained or lost a matching node must reflect the current matches, and tag selections must yield value / default / NO_VALUE.',
         note='Trusted: harness/canon.walk, the matches() predicate and expect() recursion in props/c15.py.'),
     'C16': dict(
         technique='model-based (stateful) property testing: generated edit histories on two configurations, per-step invariants relating the history log to the observed stored state and to a nesting model of suspend_tracking',
-        text='Up to 40 generated operations (C03 edits incl. *args shifts, tag operations, TaggedValue assignment, assign, copy_with, materialize_defaults, update_callable, nested suspend enter/exit) on two configurations; after every step: exactly one NEW_VALUE entry per changed key holding the stored object or DELETED, none on the other configuration, nothing logged while suspended (own depth counter), last entries equal current value/tags, sequence ids fresh and increasing, entries located in the calling file, and finally history-independence of == and build. Location of tag-API entries is a listed known finding (pinned by an existing test).',
+        text='Up to 40 generated operations (C03 edits incl. *args shifts, tag operations, TaggedValue assignment, assign, copy_with, materialize_defaults, update_callable, nested suspend enter/exit; 15% of the ops run in a fresh thread that is started and joined) on two configurations; after every step: exactly one NEW_VALUE entry per changed key holding the stored object or DELETED, none on the other configuration, nothing logged while suspended (own depth counter), last entries equal current value/tags, sequence ids fresh and increasing, entries located in the calling file, and finally history-independence of == and build. Location of tag-API entries is a listed known finding (pinned by an existing test).',
         note='Trusted: snapshots of __arguments__/__argument_tags__ taken by the harness, harness/argmodel only for operand choice.'),
     'C17': dict(
         technique='property-based frame-condition testing: generated (entry point, configuration) pairs; canonical form and path->identity map of the input compared before and after each call',
-        text='47 read-only / copy-returning entry points (build, ==, printers, graphviz, JSON/YAML dump, build_diff/apply_diff arguments, validators, three code generators, selections, grep, cast, copy_with, deepcopy_with incl. TaggedValue overrides, materialize_tags in all modes, trimming helpers, transforms, tag queries) are called on generated DAGs with sharing, tags (also on empty Buildables), long values, positional arguments and TaggedValues; the input must have the same canonical form and the same object at every path afterwards, whether the call returned or raised.',
+        text='47 read-only / copy-returning entry points (build, ==, printers, graphviz, JSON/YAML dump, build_diff/apply_diff arguments, validators, three code generators, selections, grep, cast, copy_with, deepcopy_with incl. TaggedValue overrides, materialize_tags in all modes, trimming helpers, transforms, tag queries) are called on generated DAGs with sharing, tags (also on empty Buildables), long values, positional arguments, TaggedValues and a callable that mutates its container argument while being built; the input must have the same canonical form and the same object at every path afterwards, whether the call returned or raised.',
         note='Trusted: harness/canon.py; the API table in props/c17.py defines what is covered. History is excluded as the property states.'),
     'C18': dict(
         technique='property-based round-trip and differential testing: generated configurations -> printed paths -> flag parser -> reference resolution / reference setter; generated directive sequences against sequential application in Python; rendered call expressions against their structured source',
@@ -67,15 +67,15 @@ CHECKS = {
         note='Trusted: reference leaf walk, render(), ref_set() in props/c18.py; ast.literal_eval as the literal reader. atheris-driven variant of the same strategies is not registered (see DESIGN section 8).'),
     'C20': dict(
         technique='property-based metamorphic testing: generated configuration x transformation; relation build(t(c)) ~ build(c) by canonical form (sharing, behavioural partials), plus ==, idempotence, completeness and serializability clauses',
-        text='Eleven transformations (materialize_defaults, with_defaults_trimmed in both modes, unintern_tuples_of_literals, replace_unconfigured_partials_with_callables, clear_argument_history, materialize_tags in two modes, auto_config.inline, convert_dataclasses_to_configs) are applied to generated DAGs with positional-only defaults, single and shared mutable defaults (explicit arguments equal to / aliasing them), dataclass default factories, TaggedValues whose payload is shared, Partials in containers and tuples of literals; the built graphs must be canonically identical, == must hold where stated, materialize_defaults must be idempotent and complete, serializability must be preserved. Sharing differences that consist only of default-object identity (and one aliasing defect of replace_unconfigured_partials) are listed known findings, classified by an explicit predicate.',
+        text='Eleven transformations (materialize_defaults, with_defaults_trimmed in both modes, unintern_tuples_of_literals, replace_unconfigured_partials_with_callables, clear_argument_history, materialize_tags in two modes, auto_config.inline, convert_dataclasses_to_configs) are applied to generated DAGs with positional-only defaults (also behind a required positional-only parameter), single and shared mutable defaults (explicit arguments equal to / aliasing them), dataclass default factories, TaggedValues whose payload is shared, Partials in containers and tuples of literals; the built graphs must be canonically identical, == must hold where stated, materialize_defaults must be idempotent and complete, serializability must be preserved. Sharing differences that consist only of default-object identity (and one aliasing defect of replace_unconfigured_partials) are listed known findings, classified by an explicit predicate.',
         note='Trusted: harness/canon.py (incl. no_identity / probe_symbols modes), classification predicates in props/c20.py. == instability under copying is owned by C06 and counted as prerequisite_failed.'),
     'C11': dict(
         technique='grammar-based program generation (property-based testing over programs): generated auto_config modules are imported from scratch files; differential oracle plain Python run vs build(as_buildable()) by canonical form',
-        text='A grammar produces module sources with helper auto_config functions and a target (function, closure with optionally re-bound captured variable, lambda, staticmethod, classmethod) over nested calls with positional/keyword/*splat/**splat arguments, variables (sharing), container displays, functools.partial (also of a partial held in a variable), arg_factory.partial, exempt, with_tags, builtins and, with the control-flow option, if/for/comprehensions/conditional expressions; the plain run, the decorated run and build(as_buildable(*args)) must agree in canonical form (values, types, sharing; partials behaviourally), as_buildable may invoke only exempted callables, and a fixed stream of unsupported constructs must raise UnsupportedLanguageConstructError.',
+        text='A grammar produces module sources with helper auto_config functions and a target (function, closure with optionally re-bound captured variable, lambda, staticmethod, classmethod) over nested calls with positional/keyword/*splat/**splat arguments, variables (sharing), container displays, functools.partial (also of a partial held in a variable), arg_factory.partial (factories also with positionally bound arguments), exempt, with_tags, builtins and, with the control-flow option, if/for/comprehensions/conditional expressions; the plain run, the decorated run and build(as_buildable(*args)) must agree in canonical form (values, types, sharing; partials behaviourally), as_buildable may invoke only exempted callables, and a fixed stream of unsupported constructs must raise UnsupportedLanguageConstructError.',
         note='Trusted: harness/gen/programs.py renderer, CPython as the reference semantics of the generated program, harness/canon.py. Programs outside the generated grammar are not covered.'),
     'C12': dict(
         technique='property-based per-output validation of generated programs: configuration x option point -> emitted module is imported from a scratch file and its fixture compared with the input by canonical form; value-to-expression round trip by eval',
-        text='For generated configurations (Config/Partial/ArgFactory, positional arguments, tags, shared nodes and containers, symbol/enum/bytes/complex/special-float leaves, tuple dict keys) and option points (new_codegen or auto_config_codegen, generated sub_fixtures, max_expression_complexity, include_history) plus two targeted scenarios (sub-fixture parameter/local name collision; variable named like a module that is only referenced by a leaf symbol), the generator must raise or emit text that compiles, imports and reproduces the configuration exactly; convert_py_val_to_cst output must eval to an equal value of the same type. Fourteen buckets from nine root causes in the code generators are listed known findings, each keyed by an input-feature predicate; cases with two such features are skipped.',
+        text='For generated configurations (Config/Partial/ArgFactory, positional arguments, tags, shared nodes, containers and sets, symbol/enum (also nested and same-named enums)/bytes/complex/special-float leaves, tuple dict keys) and option points (new_codegen or auto_config_codegen, generated sub_fixtures, max_expression_complexity, include_history) plus two targeted scenarios (sub-fixture parameter/local name collision; variable named like a module that is only referenced by a leaf symbol), the generator must raise or emit text that compiles, imports and reproduces the configuration exactly; convert_py_val_to_cst output must eval to an equal value of the same type. Sixteen buckets from ten root causes in the code generators are listed known findings, each keyed by an input-feature predicate; cases with two such features are skipped.',
         note='Trusted: harness/canon.py, feature predicates in props/c12.py, CPython import/exec of the emitted module.'),
     'C13': dict(
         technique='property-based differential testing of generated programs: diff -> emitted fiddler (exec) versus apply_diff, over generated and template diffs and all four option points',
@@ -83,7 +83,7 @@ CHECKS = {
         note='Trusted: diffing.apply_diff as the reference (its own correctness is judged by C10), harness/canon.py, exec of the emitted code.'),
     'C19': dict(
         technique='schedule-space exploration with a harness-owned deterministic scheduler (sys.monitoring LINE events on real threads): generated thread programs x generated pre-emption schedules plus systematic single-pre-emption sweeps; differential oracle against solo runs',
-        text='2-3 real threads run programs from a vocabulary (nested build, edits inside nested suspend_tracking, tag edits, deepcopy/==, JSON round trip, first-time Config of callables shared by the threads, failing build with scenario-local exception classes, select/set) on disjoint configurations, serialised by a scheduler that switches threads only at generated (thread, own step) points inside fiddle/_src, optionally snapped to the modules that own cross-thread state; in addition every k-th (thorough: every) step of the first thread of fixed two-thread scenarios is used as a single pre-emption. Each thread must return exactly what it returns alone, sequence ids must be unique across threads and increasing per parameter.',
+        text='2-3 real threads run programs from a vocabulary (nested build, edits inside nested suspend_tracking, tag edits, deepcopy/==, JSON round trip, first-time Config of callables shared by the threads, failing build with scenario-local exception classes, select/set) on disjoint configurations, serialised by a scheduler that switches threads only at generated (thread, own step) points inside fiddle/_src, optionally snapped to the modules that own cross-thread state; in addition every k-th (thorough: every) step of the first thread of fixed two-thread scenarios is used as a single pre-emption, and all double pre-emptions (0->1 at i, 1->0 at j) over the history.py steps touching the tracking flag are enumerated. Each thread must return exactly what it returns alone, sequence ids must be unique across threads and increasing per parameter.',
         note='Trusted: harness/sched.py (baton scheduler), CPython GIL model with switches between source lines; C-level atomic operations are not split.'),
 }
 
